@@ -31,9 +31,6 @@ theorem cmpList_eq_trans (a b c : List Value) (h1 : cmpList a b = 0) (h2 : cmpLi
 theorem cmpList_symm {a b : List Value} (h : cmpList a b = 0) : cmpList b a = 0 := by
   have := cmpList_antisymm a b; omega
 
-/-- group keys are the same group: pointwise `Compare == 0` -/
-def keq (a b : Key) : Bool := cmpList a b == 0
-
 theorem keq_iff {a b : Key} : keq a b = true ↔ cmpList a b = 0 := by simp [keq]
 theorem keq_refl (a : Key) : keq a a = true := by simp [keq, cmpList_refl]
 theorem keq_symm {a b : Key} (h : keq a b = true) : keq b a = true := by
